@@ -36,6 +36,7 @@ func init() {
 			{ID: "C03.R14", Floor: 4, Run: c07r2, Text: "cache list ⇄ position bookkeeping (= C07.R2): the position recorded for a table is read after the table was appended"},
 			{ID: "C03.R15", Floor: 1, Run: relationAssertUnwrapped, Text: "relation filters are looked at unwrapped: a function that tests its Filter parameter for *RelationFilter has handled the *CachedFilter wrapper first, on a branch that never reaches the relation test"},
 			{ID: "C03.R16", Floor: 2, Run: queryIntParamsRangeChecked, Text: "int arguments of query methods are not truncated: in Query methods an int parameter reaches a conversion to a 32-bit type only under a known upper bound ≤ MaxUint32 (dominating comparison or clamp): Step(k) and EntityAt(i) do not act on k, i modulo 2^32"},
+			{ID: "C03.R17", Floor: 4, Run: filterCtorsVerbatim, Text: "logic-filter constructors store their operands unchanged (= C04.R6)"},
 		},
 	})
 }
